@@ -82,9 +82,26 @@ def layout(a, kind):
     elif kind == 'R':
         # negative strides: a reversed view of a reversed copy
         out = np.ascontiguousarray(a[::-1, ::-1])[::-1, ::-1]
+    elif kind == 'P':
+        # unit stride along axis 0, but NOT Fortran-contiguous: the first rows of a taller Fortran array
+        big = np.full((a.shape[0] + 5, a.shape[1]), 7.25, dtype=np.float64, order='F')
+        out = big[:a.shape[0]]
+        out[...] = a
+        assert out.strides[0] == 8 and (a.shape[1] < 2 or out.strides[1] == 8 * (a.shape[0] + 5))
+    elif kind == 'Q':
+        # unit stride along axis 1, but NOT C-contiguous: the first columns of a wider C array
+        big = np.full((a.shape[0], a.shape[1] + 3), 7.25, dtype=np.float64, order='C')
+        out = big[:, :a.shape[1]]
+        out[...] = a
+        assert out.strides[1] == 8
+    elif kind == 'T':
+        # the transposed view of a C array holding the transposed matrix, every second column of it
+        big = np.full((2 * a.shape[1], a.shape[0]), 7.25, dtype=np.float64, order='C')
+        big[::2] = a.T
+        out = big[::2].T
     else:
         raise RuntimeError('bad layout')
-    assert out.shape == a.shape and out.dtype == np.float64
+    assert out.shape == a.shape and out.dtype == np.float64 and np.array_equal(out, a, equal_nan=True)
     return out
 
 
